@@ -63,6 +63,26 @@ CHECKS = {
         technique="writer/sink protocol as a TLA+ state machine (CacheIO.tla) model-checked for every sink response at every call; the pinned single-write padding variant must be refuted; TLC-generated sink schedules (cap k=1..16, short/zero/fail/interrupt at call i) replayed through ProguardCache::write with a scripted sink; recorded runs with every sink call validated by TLC (RecordedProtocol)",
         text="Success implies the sink holds exactly the canonical bytes; a reported failure implies an error result and a prefix; every offered buffer is the next bytes of the canonical file.",
         design="4 C15", note="Canonical = what the same build writes into a Vec. Bounded exhaustive on the model, 88 policy schedules on a real one-class file, seeded policies on generated mappings."),
+    "C10": dict(
+        technique="history model of releases/files (CacheHistory.tla) model-checked: agreement holds iff equal version implies equal layout (the undisciplined variant must be refuted); the pinned 5.5.0 sources linked as crate proguard_pinned next to the current tree, all (writer, reader) pairs over generated/corpus mappings, recorded disagreements validated by TLC (RecordedAgreement)",
+        text="For every mapping both releases write a cache; both readers parse both files and answer 60..120 queries each (class, method, frames by line/params, throwable, text trace, signature); a file must be rejected with WrongVersion by one of them or answered identically by both.",
+        design="4 C10", note="pinned/proguard-5.5.0 is a verbatim copy (git show f3fcb84:src/...). Sampled mappings in the stated domain."),
+    "C12": dict(
+        technique="machine-integer model of the cache reader's line arithmetic over ALL field values at small width (MC_LineArith; the unchecked pinned variant must be refuted); F-field corruptions of real caches (boundary values into any u32 field, record swaps, bit flips, string/LEB128/UTF-8 damage, random bodies, header counts) probed with the full query surface under catch_unwind; completion and pointer provenance of every returned string validated by TLC",
+        text="Every accepted corrupted buffer must let class/method/frame (line, file, params; lines 0, 2^31, 2^32-2..2^32, 2^64-1)/throwable/text+typed trace/signature/Debug queries return, and every returned &str must point into the buffer or the query.",
+        design="4 C12", note="Memory safety of the two unsafe Pod casts is observed only through results. Sampled corruptions (1.4k quick / 7k thorough buffers)."),
+    "C13": dict(
+        technique="MC_LineArith for mapper and cache (unchecked variants refuted, saturating variants clean at small width); wild sessions (byte soups, mutated files, grammar with numbers around 2^32 and 2^64, empty names, invalid UTF-8) driven through mapper x2, cache write+parse, queries with extreme lines, arbitrary Unicode trace/signature text; TLC trace spec requires every call to complete and in-domain answers to equal Retrace!Answer",
+        text="Harness built with overflow checks: a wrapping overflow is a panic and is recorded as data; any panic or Err from build/write/parse/query rejects the trace.",
+        design="4 C13", note="Sampled inputs (90 quick / 400 thorough sessions x 60 queries + 24 other API calls each)."),
+    "C18": dict(
+        technique="UUIDv5 / SHA-1 transcribed into TLA+ (spec/lib/Sha1.tla with 16-bit half words + Bitwise, spec/Uuid.tla) and evaluated by TLC on the exact bytes of every recorded ProguardMapping::uuid call; repeats in 3 other processes must agree",
+        text="Empty input, SHA-1 block-boundary lengths (55/56/64/119/120), corpus prefixes in LF and CRLF form, random bytes; expected value computed by TLC only.",
+        design="4 C18", note="Function transcription, not state exploration; inputs up to 8 KiB (quick) / 256 KiB (thorough), below the statement's 1 MiB."),
+    "C20": dict(
+        technique="Sharing.tla (thread-local cursors over an immutable handle) model-checked for all interleavings, shared-cursor variant refuted; Send+Sync asserted by rustc on 16 public types (harness/sendsync); 2..16 threads behind a barrier query one shared mapper / mapper+params / parsed cache, per-thread sequence numbers, every event validated by TLC against Retrace!Answer",
+        text="Each concurrent query must return exactly the single-threaded declarative answer.",
+        design="4 C20", note="Auto traits are decided by the Rust type checker, not TLC; interleavings are those the OS scheduler produces."),
 }
 
 NOT_YET = {}
